@@ -540,7 +540,11 @@ pub fn generate(seed: u64, g: &GenB) -> PlanB {
         acls,
         addresses,
         queries: vec![],
-        wall_base: 1_700_000_000 + r.below(200_000_000) as i64,
+        wall_base: {
+            let mut k = Rng::new(seed, "plan-b-epoch");
+            let w = 1_700_000_000 + r.below(200_000_000) as i64;
+            if k.chance(0.04) { 2_147_483_648 - k.range(1, 100_000) as i64 } else { w }
+        },
         clock_jumps: vec![],
         yield_p: if r.chance(0.4) { *r.pick(&[0.1, 0.3]) } else { 0.0 },
         spurious_p: if r.chance(0.3) { 0.05 } else { 0.0 },
